@@ -230,7 +230,7 @@ def has_keyword(name, keywords):
     return any(keyword in name for keyword in keywords)
 
 
-@contract(PA + "find_all_classes", props=["C16"], types=dict(tree=PyNode, classes=SeqOf(PyNode), node=PyNode),
+@contract(PA + "find_all_classes", props=["C16", "C12"], types=dict(tree=PyNode, classes=SeqOf(PyNode), node=PyNode),
           returns=SeqOf(PyNode))
 class PyFindAllClasses:
     """Every class definition reachable from the tree (ast.walk is trusted), each exactly once, in walk order."""
@@ -252,7 +252,7 @@ def py_metrics(class_node, source, config):
               has_keyword=has_keyword(class_node.name, config.keywords), line=class_node.lineno, column=class_node.col_offset)
 
 
-@contract(PA + "analyze_class", props=["C16"], types=dict(class_node=PyNode, source=Str, config=SRPConfigT),
+@contract(PA + "analyze_class", props=["C16", "C12"], types=dict(class_node=PyNode, source=Str, config=SRPConfigT),
           returns=ClassMetrics)
 class PyAnalyzeClass:
     def native_domain(class_node, source, config):
@@ -262,6 +262,8 @@ class PyAnalyzeClass:
         return class_node is not None
 
     def value(class_node, source, config):
+        # C12: EXACTLY these six keys -- "line" is the class header (class_node.lineno) and the record carries no other key
+        # that a consumer could take for the location
         return py_metrics(class_node, source, config)
 
     def ensures_metrics(class_node, source, config, result):
@@ -277,7 +279,7 @@ class PyAnalyzeClass:
 PyAnalyzerT = Rec("PythonSRPAnalyzer", cls=PA + "PythonSRPAnalyzer")
 
 
-@contract(PA + "PythonSRPAnalyzer.find_all_classes", props=["C16"], types=dict(self=PyAnalyzerT, tree=PyNode),
+@contract(PA + "PythonSRPAnalyzer.find_all_classes", props=["C16", "C12"], types=dict(self=PyAnalyzerT, tree=PyNode),
           returns=SeqOf(PyNode))
 class PyWrapFindAllClasses:
     def requires(self, tree):
@@ -287,7 +289,7 @@ class PyWrapFindAllClasses:
         return [node for node in py_walk(tree) if isinstance(node, ast.ClassDef)]
 
 
-@contract(PA + "PythonSRPAnalyzer.analyze_class", props=["C16"],
+@contract(PA + "PythonSRPAnalyzer.analyze_class", props=["C16", "C12"],
           types=dict(self=PyAnalyzerT, class_node=PyNode, source=Str, config=SRPConfigT), returns=ClassMetrics)
 class PyWrapAnalyzeClass:
     def native_domain(self, class_node, source, config):
@@ -479,7 +481,7 @@ def ts_class_name(class_node):
     return "UnnamedClass" if ts_identifier_name(class_node) == "anonymous" else ts_identifier_name(class_node)
 
 
-@contract(TA + "TypeScriptSRPAnalyzer.find_all_classes", props=["C16"], types=dict(self=TsAnalyzerT, root_node=TSNode),
+@contract(TA + "TypeScriptSRPAnalyzer.find_all_classes", props=["C16", "C12"], types=dict(self=TsAnalyzerT, root_node=TSNode),
           returns=SeqOf(TSNode))
 class TsFindAllClasses:
     """Every class_declaration of the tree exactly once, in document order."""
@@ -499,7 +501,7 @@ def ts_metrics(class_node, source, config):
         else ts_metrics_named(class_node, ts_identifier_name(class_node), source, config)
 
 
-@contract(TA + "TypeScriptSRPAnalyzer.analyze_class", props=["C16"], no_selftest=True,
+@contract(TA + "TypeScriptSRPAnalyzer.analyze_class", props=["C16", "C12"], no_selftest=True,
           types=dict(self=TsAnalyzerT, class_node=TSNode, source=Str, config=SRPConfigT), returns=ClassMetrics)
 class TsAnalyzeClass:
     def requires(self, class_node, source, config):
@@ -575,7 +577,7 @@ def rs_node_loc(node, source):
     return sum(1 for line in rs_node_lines(node, source) if rs_is_code_line(line))
 
 
-@contract(RA + "RustSRPAnalyzer.find_all_structs", props=["C16"], types=dict(self=RustAnalyzerT, root_node=TSNode),
+@contract(RA + "RustSRPAnalyzer.find_all_structs", props=["C16", "C12"], types=dict(self=RustAnalyzerT, root_node=TSNode),
           returns=SeqOf(TSNode))
 class RsFindAllStructs:
     def ensures_all_structs(self, root_node, result):
@@ -726,7 +728,7 @@ def rs_metrics(struct_node, impl_blocks, source, config):
               line=struct_node.start_point[0] + 1, column=struct_node.start_point[1])
 
 
-@contract(RA + "RustSRPAnalyzer.analyze_struct", props=["C16"],
+@contract(RA + "RustSRPAnalyzer.analyze_struct", props=["C16", "C12"],
           types=dict(struct_node=TSNode, impl_blocks=SeqOf(TSNode), source=Str, config=SRPConfigT), returns=ClassMetrics)
 class RsAnalyzeStruct:
     def requires(self, struct_node, impl_blocks, source, config):
@@ -782,7 +784,7 @@ class ParsePythonSafely:
         return result is not None and result == py_root(content_of(context))
 
 
-@contract(CA + "ClassAnalyzer.analyze_python", props=["C16"], types=dict(self=ClassAnalyzerT, context=SrpCtxT, config=SRPConfigT),
+@contract(CA + "ClassAnalyzer.analyze_python", props=["C16", "C12"], types=dict(self=ClassAnalyzerT, context=SrpCtxT, config=SRPConfigT),
           returns=SeqOf(ClassMetrics))
 class AnalyzePython:
     """One metrics record per class definition of the file, in ast.walk order."""
@@ -791,7 +793,7 @@ class AnalyzePython:
                 for class_node in [node for node in py_walk(py_root(content_of(context))) if isinstance(node, ast.ClassDef)]]
 
 
-@contract(CA + "ClassAnalyzer.analyze_typescript", props=["C16"], no_selftest=True,
+@contract(CA + "ClassAnalyzer.analyze_typescript", props=["C16", "C12"], no_selftest=True,
           types=dict(self=ClassAnalyzerT, context=SrpCtxT, config=SRPConfigT, root_node=Opt(TSNode)), returns=SeqOf(ClassMetrics))
 class AnalyzeTypescript:
     """One metrics record per class_declaration of the file, in document order (nothing without a parser)."""
@@ -857,7 +859,7 @@ class BuildImplMap:
         return impl_map_of(impl_blocks)
 
 
-@contract(CA + "ClassAnalyzer.analyze_rust", props=["C16"],
+@contract(CA + "ClassAnalyzer.analyze_rust", props=["C16", "C12"],
           types=dict(self=ClassAnalyzerT, context=SrpCtxT, config=SRPConfigT, root_node=Opt(TSNode)), returns=SeqOf(ClassMetrics))
 class AnalyzeRust:
     """One metrics record per struct_item, judged together with the impl blocks that target its name."""
@@ -932,6 +934,22 @@ class SrpBuildViolation:
         return result.line == metrics["line"] and result.column == metrics["column"] and result.file_path == path_text(context)
 
     def ensures_message_lists_issues(self, metrics, issues, rule_id, context, result):
+        return result.rule_id == rule_id and result.message == srp_message(metrics["class_name"], issues)
+
+
+@contract(VB + "ViolationBuilder.build_violation~open-metrics", props=["C12", "C16"],
+          types=dict(self=SrpBuilderT, metrics=Dict, issues=SeqOf(Str), rule_id=Str, context=SrpCtxT), returns=SevViolationT)
+class SrpBuildViolationOpenMetrics:
+    """Second view (C12): the metrics argument is an OPEN dict -- whatever further keys it carries, the violation sits at
+    metrics["line"] / metrics["column"] (the class header recorded by the analyzers), in this file."""
+    def requires(self, metrics, issues, rule_id, context):
+        return "class_name" in metrics and isinstance(metrics["class_name"], str) and "line" in metrics \
+            and isinstance(metrics["line"], int) and "column" in metrics and isinstance(metrics["column"], int)
+
+    def ensures_header_location(self, metrics, issues, rule_id, context, result):
+        return result.line == metrics["line"] and result.column == metrics["column"] and result.file_path == path_text(context)
+
+    def ensures_names_the_class(self, metrics, issues, rule_id, context, result):
         return result.rule_id == rule_id and result.message == srp_message(metrics["class_name"], issues)
 
 
@@ -1030,7 +1048,7 @@ def reported_lemma(metrics_list, config, context):
     return reported(metrics_list, config, context) == reported_doc(metrics_list, config, context)
 
 
-@contract(LI + "SRPRule._build_violations_from_metrics", props=["C16"],
+@contract(LI + "SRPRule._build_violations_from_metrics", props=["C16", "C12"],
           types=dict(self=SrpRuleT, metrics_list=SeqOf(ClassMetrics), config=SRPConfigT, context=SrpCtxT),
           returns=SeqOf(ViolationT))
 class BuildViolationsFromMetrics:
@@ -1064,7 +1082,7 @@ def py_reported(context, config):
                     config, context)
 
 
-@contract(LI + "SRPRule._check_python", props=["C16"], types=dict(self=SrpRuleT, context=SrpCtxT, config=SRPConfigT),
+@contract(LI + "SRPRule._check_python", props=["C16", "C12"], types=dict(self=SrpRuleT, context=SrpCtxT, config=SRPConfigT),
           returns=SeqOf(ViolationT))
 class SrpCheckPython:
     """Python: one violation per offending class of the (parseable) file."""
@@ -1078,7 +1096,7 @@ def ts_reported(context, config):
                      ts_collect_type(ts_root(content_of(context)), "class_declaration")], config, context)
 
 
-@contract(LI + "SRPRule._check_typescript", props=["C16"], types=dict(self=SrpRuleT, context=SrpCtxT, config=SRPConfigT),
+@contract(LI + "SRPRule._check_typescript", props=["C16", "C12"], types=dict(self=SrpRuleT, context=SrpCtxT, config=SRPConfigT),
           returns=SeqOf(ViolationT))
 class SrpCheckTypescript:
     def value(self, context, config):
@@ -1092,7 +1110,7 @@ def rs_reported(context, config):
         for struct_node in collect_type(rust_root(content_of(context)), "struct_item")], config, context)
 
 
-@contract(LI + "SRPRule._check_rust", props=["C16"], types=dict(self=SrpRuleT, context=SrpCtxT, config=SRPConfigT),
+@contract(LI + "SRPRule._check_rust", props=["C16", "C12"], types=dict(self=SrpRuleT, context=SrpCtxT, config=SRPConfigT),
           returns=SeqOf(ViolationT))
 class SrpCheckRust:
     def value(self, context, config):
@@ -1106,7 +1124,7 @@ def dispatch(context, config):
             rs_reported(context, config) if context.language == "rust" else []))
 
 
-@contract(LI + "SRPRule._dispatch_by_language", props=["C16"], types=dict(self=SrpRuleT, context=SrpCtxT, config=SRPConfigT),
+@contract(LI + "SRPRule._dispatch_by_language", props=["C16", "C12"], types=dict(self=SrpRuleT, context=SrpCtxT, config=SRPConfigT),
           returns=SeqOf(ViolationT))
 class SrpDispatchByLanguage:
     def value(self, context, config):
@@ -1203,7 +1221,7 @@ class SrpLoadConfig:
                         result.enabled and result.check_keywords and result.keywords == DEFAULT_KEYWORDS and result.ignore == [])
 
 
-@contract(LI + "SRPRule.check", props=["C16"], types=dict(self=SrpRuleT, context=SrpCtxT, config=SRPConfigT),
+@contract(LI + "SRPRule.check", props=["C16", "C12"], types=dict(self=SrpRuleT, context=SrpCtxT, config=SRPConfigT),
           returns=SeqOf(ViolationT), raises=["ValueError"], inline=["has_file_content"])
 class SrpCheck:
     """Nothing without content, when disabled or when the file matches an ignore pattern; else the verdicts of the file's
